@@ -136,8 +136,8 @@ def volume_oracle(case, raw, stats):
         if t_div > 0:
             k = int(math.ceil(t_div / dt - 1e-12))
             k = max(k, 1)
-            # (a division falling on the very last grid time leaves every row in place either way: left open)
-            if (k * dt) >= t_div > (k - 1) * dt and k * dt < grid[-1] - 1e-12:
+            # (a division falling in the last grid interval leaves every row in place, but it is still reported: the flag)
+            if (k * dt) >= t_div > (k - 1) * dt and k * dt <= grid[-1] + 1e-12:
                 exp_div = k * dt
         if exp_div is not None:
             stats["division_expected"] = stats.get("division_expected", 0) + 1
@@ -146,7 +146,7 @@ def volume_oracle(case, raw, stats):
             elif abs(times[-1] - exp_div) > 1e-9:
                 bad("result_does_not_end_at_division", division_time=t_div, expected_end=exp_div, got_end=float(times[-1]))
         else:
-            if divided and not (t_div > 0 and abs(times[-1] - grid[-1]) < 1e-9 and times[-1] >= t_div > times[-1] - dt):
+            if divided:
                 bad("division_reported_without_cause", division_time=t_div, end=float(times[-1]))
     else:
         stats["growth_runs"] = stats.get("growth_runs", 0) + 1
